@@ -20,7 +20,8 @@ EXPLANATION = (
     "exists (C03.R1)."
     " (R1b) the local ParquetWriter is opened on the temp file's path (not on the already-open handle), so close() flushes every byte before the fsync."
     ' (R5) a failing content write / file fsync / writer close / rename leaves the publisher as an exception (handlers on the way re-raise).'
-    ' (R6) _get_arrow_filesystem returns a filesystem object only for the S3 backend, so local data files always take the temp + fsync + rename branch.')
+    ' (R6) _get_arrow_filesystem returns a filesystem object only for the S3 backend, so local data files always take the temp + fsync + rename branch.'
+    ' (R9) storage effects are synchronous: nothing handed to an executor / thread / timer writes or deletes through the storage layer (function values followed).')
 NOT_DECIDED = "replay of the syscall trace in a power-loss model; filesystem semantics of fsync/rename"
 
 
@@ -39,6 +40,64 @@ def check(ctx: Ctx) -> None:
     # the object-store analogue of "content flushed before the pointer moves": what a (possibly retried) PUT stores is the whole body
     from .c20 import r13_bodies_are_bytes
     r13_bodies_are_bytes(ctx, "C16.R8")
+    no_deferred_storage_effects(ctx)
+
+
+STORAGE_MUTATIONS = {"write_file", "write_json", "write_file_cas", "delete_file"}
+MUTATING_PRIMS = {"os.replace", "os.rename", "os.remove", "os.unlink", "os.write", "os.fsync", "boto.put_object", "boto.delete_object",
+                  "boto.delete_objects", "shutil.rmtree", "shutil.move", "builtins.open"}
+DEFER_CALLS = {"submit", "apply_async", "run_in_executor", "start_new_thread", "call_soon", "call_later", "map_async", "imap"}
+DEFER_CTORS = {"Thread", "Timer", "Process"}
+LOCK_MODULES = ("lock_provider", "file_lock")
+BACKEND_MODULES = ("storage_backend", "s3_consistency") + LOCK_MODULES
+
+
+def no_deferred_storage_effects(ctx: Ctx, rid: str = "C16.R9") -> None:
+    ctx.rule(rid, "storage effects are synchronous: no function handed to an executor / thread / timer (submit, map on a pool, "
+             "Thread(target=...)) writes or deletes through the storage layer - every ordering and error rule of this framework "
+             "(content before pointer, fsync before acknowledge, failed write fails the commit) reads the call sequence of the "
+             "committing thread, and a write that runs elsewhere can fail or finish late without the committer noticing", 1)
+    n_sites = 0
+    for f in sorted(ctx.prog.functions.values(), key=lambda x: x.qname):
+        if isinstance(f.node, ast.Lambda) or f.module.short in LOCK_MODULES:
+            continue  # a lock's heartbeat thread renews the LOCK object (C19), not table content
+        g = ctx.cfg(f)
+        for n in g.calls():
+            if not isinstance(n.ast, ast.Call) or n.id not in g.reachable():
+                continue
+            dn = dotted(n.ast.func) or (n.ast.func.attr if isinstance(n.ast.func, ast.Attribute) else "")
+            leaf = dn.split(".")[-1]
+            recv = norm_text(n.ast.func.value).lower() if isinstance(n.ast.func, ast.Attribute) else ""
+            pool_map = leaf == "map" and any(w in recv for w in ("executor", "pool"))
+            if not (leaf in DEFER_CALLS or leaf in DEFER_CTORS or pool_map):
+                continue
+            cands = list(n.ast.args) + [k.value for k in n.ast.keywords if k.arg in ("target", "function", "func", "fn", "callback")]
+            fvs: List[FunctionInfo] = []
+            for a in cands:
+                if isinstance(a, ast.Call) and (dotted(a.func) or "").split(".")[-1] == "partial" and a.args:
+                    a = a.args[0]
+                fvs += ctx.eff.function_values(a, f)
+            if not fvs:
+                continue
+            n_sites += 1
+            bad = []
+            for fv in fvs:
+                if fv.name in STORAGE_MUTATIONS and ctx.eff.is_storage_class(fv.cls):
+                    bad.append(f"{fv.qname} itself")
+                    continue
+                # effects are recognised at the storage API (and at raw file primitives outside the backends); the retry layer
+                # is not entered - its callable parameter is bound to every closure of the package
+                for ff, m, _chain in ctx.eff.transitive_calls(fv, stop=lambda t: t.module.short in BACKEND_MODULES):
+                    if ctx.eff.storage_op(m) in STORAGE_MUTATIONS or (m.callee is not None and m.callee.kind == "prim" and m.callee.name in MUTATING_PRIMS
+                                                                      and not (m.callee.name == "builtins.open" and "w" not in norm_text(m.ast))):
+                        bad.append(f"{ff.qname}:{m.lineno} {m.text[:50]}")
+                        break
+            ctx.ob(rid, f, "work handed to another thread does not write or delete", n, not bad,
+                   "the deferred functions only read" if not bad else
+                   f"deferred storage effect ({bad[0]}): its failure or completion is invisible to the committing thread - a commit can be "
+                   "acknowledged before (or without) the file its pointer names being written")
+    if n_sites == 0:
+        raise AnalysisError("no executor / thread use found (the parallel scan vanished?)")
 
 
 def local_writes_take_the_durable_branch(ctx: Ctx, rid: str = "C16.R6") -> None:
